@@ -467,3 +467,44 @@ z3.BoolRef.__sub__ = lambda a, b: _b2i(a) - _oi(b)
 z3.BoolRef.__rsub__ = lambda a, b: _oi(b) - _b2i(a)
 z3.BoolRef.__mul__ = lambda a, b: _b2i(a) * _oi(b)
 z3.BoolRef.__rmul__ = lambda a, b: _oi(b) * _b2i(a)
+
+
+# z3 operators raise instead of returning NotImplemented when the other operand is an SF: defer to SF's reflected ops
+def _defer_to_sf(cls, name):
+    orig = getattr(cls, name, None)
+    if orig is None:
+        return
+
+    def op(self, other, _orig=orig):
+        if isinstance(other, SF):
+            return NotImplemented
+        if isinstance(other, float) and not (z3.is_real(self)):
+            return getattr(SF.of(self), name)(other)
+        return _orig(self, other)
+    setattr(cls, name, op)
+
+
+for _n in ("__add__", "__sub__", "__mul__", "__truediv__", "__div__", "__lt__", "__le__", "__gt__", "__ge__",
+           "__radd__", "__rsub__", "__rmul__"):
+    _defer_to_sf(z3.ArithRef, _n)
+    _defer_to_sf(z3.BoolRef, _n)
+
+_orig_expr_eq = z3.ExprRef.__eq__
+_orig_expr_ne = z3.ExprRef.__ne__
+
+
+def _expr_eq(self, other):
+    if isinstance(other, SF):
+        return other.eq(self)
+    return _orig_expr_eq(self, other)
+
+
+def _expr_ne(self, other):
+    if isinstance(other, SF):
+        return b_not(other.eq(self))
+    return _orig_expr_ne(self, other)
+
+
+z3.ExprRef.__eq__ = _expr_eq
+z3.ExprRef.__ne__ = _expr_ne
+z3.ExprRef.__hash__ = lambda self: z3.AstRef.__hash__(self)
